@@ -95,7 +95,9 @@ def summarize(ctx, fv, region, _depth=0):
         last = nm.rsplit("::", 1)[-1]
         if last == "push" and "vec::Vec" in nm and c.args:
             lst = render(strip_ref(fv.expr(c.args[0])))
-            val = fv.expr(c.args[1])
+            # the pushed value in terms of the change's payload *positions* (binding names do not matter)
+            pv = fnview(ctx, b, policy=False)
+            val = pv.expr(c.args[1])
             pushes.append((lst, norm_outpoint(val)))
         elif last in MUTATORS:
             flag = None
